@@ -21,7 +21,7 @@ CALLER_LETS = "let lim: i32 = 5; let word: String = \"hello\".to_string(); let p
 WORDS = ["hello", "help", "world", "a b", "x", "", "hi there", "Hello"]
 # values whose Debug form differs from their Display form (quotes, backslashes, control characters) or is not ASCII;
 # they appear as VALUES only: string-literal patterns with escapes are outside the model's literal parser
-TRICKY = ['say "hi"', 'C:\\dir', 'a\nb', 'tab\there', 'é日', 'q"', '\\']
+TRICKY = ['say "hi"', 'C:\\dir', 'a\nb', 'tab\there', 'é日', 'q"', '\\', 'a  b', '  lead', 'trail  ', 'x   y  z']
 
 
 def rust_str(w):
